@@ -230,7 +230,12 @@ def crashed_chain(case, ev, crash, sandbox):
 
 
 def _p(p):
-    return {k: p[k] for k in ("fmt", "tool", "uDecl", "cDecl", "net", "cons", "entry")}
+    q = {k: p[k] for k in ("fmt", "tool", "uDecl", "cDecl", "net", "cons", "entry")}
+    if q["tool"] == "ok" and not fixture(p.get("eol", "lf")).tools_available.get(q["fmt"], True):
+        # the binary behind this format's external tool (zstd here) is not installed on this machine: the 'ok' PATH directory holds
+        # no tool for it, which IS the situation tool = none; the recorded parameters say what the run really had
+        q["tool"] = "none"
+    return q
 
 
 def _detail(r):
@@ -580,7 +585,8 @@ def run(ctx, out):
         "for an uncompressed corpus of undeclared size a complete HTTP exchange whose body is cut inside the last line is indistinguishable from the published file and excluded",
         "torn / unparsable offset tables (cut inside an entry) are INITIAL states only (what a power loss, a full disk or an interrupted copy of the data directory leaves): a killed process cannot produce them, CPython's text layer hands complete print() pieces to the OS, so a killed build leaves a correct prefix of the table (observed: the empty table)",
         "a kill is os._exit of a forked child at an observed C-level call (open/write/rename/remove/utime/close/fork_exec...), an interrupt is a BaseException raised at that call; while an external decompressor runs no crash is injected (its progress is scheduling dependent)",
-        "pbzip2 / pzstd are not installed: thin wrappers around the bzip2 / zstd binaries stand in for them (pigz is real); 'fail' tools exit 1 without output",
+        "pbzip2 / pzstd are not installed: thin wrappers around the bzip2 / zstd binaries stand in for them (pigz is real); 'fail' tools exit 1 without output; "
+        "where the binary itself is missing (zstd in this sandbox) a case drawn with a working tool is recorded and judged as a case without tool",
         "mtimes written by a run are moved to deterministic instants between runs, keeping their order (no verdict depends on the clock granularity); initial document / table mtimes differ by 100 s or (a share of the cases) lie within the same whole second, the table 0.5 s before or 0.2 s after the document",
         "a connection that goes silent mid-body is scripted below urllib3's response object: the body source raises socket.timeout iff the request was made with a finite read time-out (urllib3 turns it into ReadTimeoutError), otherwise the read never returns and the run is ended as hung",
         "explicit error = any Exception leaving the call (library exceptions such as EOFError / zstd.ZstdError / urllib3 ProtocolError count; their kind is compared at L2 only)",
